@@ -326,13 +326,13 @@ impl Property for C18 {
     fn cases(&self, tier: Tier) -> u64 {
         match tier {
             Tier::Quick => 3_000,
-            Tier::Thorough => 150_000,
+            Tier::Thorough => 3_000_000,
         }
     }
     fn min_nontrivial(&self, tier: Tier) -> u64 {
         match tier {
             Tier::Quick => 500,
-            Tier::Thorough => 25_000,
+            Tier::Thorough => 500_000,
         }
     }
     fn rule(&self) -> &'static str {
